@@ -57,7 +57,7 @@ def run(ctx: Ctx) -> None:
     runs = {}
     for pos in (False, True):
         for com in (False, True):
-            X = xform.AbstractTransformer(e, include_position=pos, include_comments=com)
+            X = xform.AbstractTransformer(e, include_position=pos, include_comments=com, deep=ctx.tier == "thorough")
             X.run()
             runs[(pos, com)] = X
     base = runs[(False, False)].all_evals
